@@ -431,4 +431,77 @@ PROPS["C16"] = {
     "level_note": "Trusted: Lean kernel (incl. `decide +kernel` for the four prime-width facts); extractor; harness. go-jose's EC handling is modelled, not verified; the stream validates it.",
 }
 
+
+def _sort_ops(v):
+    """order among operations with equal (time, number) is unspecified (sort.Slice is not stable)"""
+    if isinstance(v, dict):
+        out = {}
+        for k, x in v.items():
+            if k in ("publishedOperations", "unpublishedOperations") and isinstance(x, list):
+                out[k] = sorted(x, key=lambda o: (o.get("transactionTime", 0), o.get("transactionNumber", 0), json.dumps(o, sort_keys=True)))
+            else:
+                out[k] = _sort_ops(x)
+        return out
+    if isinstance(v, list):
+        return [_sort_ops(x) for x in v]
+    return v
+
+
+def _cmp_transform(kind, case, impl, model):
+    from check import canon, first_diff
+    a, b = canon(_sort_ops(impl)), canon(_sort_ops(model))
+    return None if a == b else first_diff(a, b)
+
+
+import json  # noqa: E402
+
+PROPS["C17"] = {
+    "theorem_modules": ["Sidetree.Props.C17"],
+    "prescribes": "Sidetree.Did.resolve / processOperation (Props.C17)",
+    "obligations": [{"name": "Shape_Did", "facts": "module:Did"}, {"name": "C17_defaultProtocol", "facts": ["defaultProtocol"]}] + _PARSER_OBL +
+                   [{"name": "Shape_Transformer", "facts": "module:Transformer"}],
+    "streams": [{"gen": "C17", "quick": 3000, "thorough": 150000}],
+    "compare": _cmp_transform,
+    "label": lambda r: _lab(r, r["model"].get("class")),
+    "nontrivial": lambda r: r["model"].get("class") == "ok",
+    "shape": lambda r: r["case"].get("did") or r["case"].get("req") or r["case"].get("spec"),
+    "rule": "create requests that fit the handler's fixed protocol (all patch kinds it allows, three namespaces) turned into long-form DIDs, then: unchanged; every kind of single-character "
+            "change; initial state re-encoded with other whitespace / member order, with padding, with non-zero trailing bits, with a line break; namespaces related by prefix (longer, "
+            "shorter, with extra colon, upper case); short form; extra middle segments; suffix of another request; missing parts; tampered and re-encoded initial state; initial state "
+            "without type / with an extra member / that is an update request. ProcessOperation on create, respelled, truncated, hash-mismatching and non-create requests, followed by "
+            "ResolveDocument of the DID it returned. VDR.Create (twice) and VDR.Read on did-go documents with several keys. Compared: accept/refuse and the whole resolution result.",
+    "technique": "Lean 4 theorems on the resolution model (namespace gate, canonical initial state, shape of resolvable DIDs, self-certification) + go/ast obligations + differential correspondence",
+    "level_text": "Proved in Lean: a DID resolves only if it begins with the handler's namespace and a colon (so did:foobar never resolves on did:foo); short forms are refused; an initial "
+                  "state is accepted only if it is the exact unpadded base64url encoding of the canonical JSON of the request it decodes to; every resolvable DID ends in suffix:initial-state "
+                  "where the request is accepted by the parser under the handler's protocol and the suffix is the sha2-256 model multihash of its suffix data (via C03); the id and "
+                  "equivalent id of the result; the model's protocol value equals the literal in config/protocol.go. 'Resolves to a document equivalent to the one supplied' and "
+                  "'creation is deterministic' rest on the correspondence (ProcessOperation then ResolveDocument compared in full; VDR.Create repeated).",
+    "level_note": "Trusted: Lean kernel; extractor; harness. did-go's document (un)marshalling used by VDR.Create/Read is not modelled: the VDR stream checks the round trip with an oracle "
+                  "written in the harness (key ids, purposes, services, also-known-as survive; same input gives the same DID).",
+}
+
+PROPS["C18"] = {
+    "theorem_modules": ["Sidetree.Props.C18"],
+    "prescribes": "Sidetree.Transformer.transform (Props.C18)",
+    "obligations": [{"name": "Shape_Transformer", "facts": "module:Transformer"}, {"name": "C18_tables", "facts": ["keyContexts", "purposeSwitch", "sortCmp"]}],
+    "streams": [{"gen": "C18", "quick": 4000, "thorough": 200000}],
+    "compare": _cmp_transform,
+    "label": lambda r: r["model"].get("class", "?") + "/" + ("base" if r["case"]["opts"].get("base") else "abs") + ("/pub" if r["case"]["opts"].get("pub") else "") + ("/unpub" if r["case"]["opts"].get("unpub") else ""),
+    "nontrivial": lambda r: r["model"].get("class") == "ok",
+    "shape": lambda r: [r["case"]["state"], r["case"]["info"], r["case"]["opts"]],
+    "rule": "internal documents with 0-4 keys of every type (JWK of every curve, base58, Ed25519 keys for the 2018/2020 types incl. wrong-width ones, no material, unknown type), every subset "
+            "and order of purposes, 0-3 services with every endpoint shape and extra members, also-known-as; states with and without commitments, anchor origin, times, version id, "
+            "deactivated flag; published and unpublished operation lists with arbitrary (time, number) pairs incl. disagreeing ones, exact duplicates and repeated canonical references; "
+            "info with and without canonical / equivalent ids, occasionally without id / published; all 16 option combinations and 0-3 method contexts. Compared: the whole result "
+            "(operations with equal (time, number) as multisets). Non-trivial = transformed; distinct = distinct (state, info, options).",
+    "technique": "Lean 4 theorems (sorted permutation, de-duplication, per-key fields, relationships, contexts, metadata table) + go/ast table obligations + differential correspondence",
+    "level_text": "Proved in Lean: operations are listed as a permutation of the input sorted lexicographically by (transaction time, transaction number); the published list has no canonical "
+                  "reference twice, loses none, and is a sorted sublist; every internal key yields exactly one verification method with id DID#id (or #id under @base), its type and "
+                  "controller = DID; JWK material is preserved and Ed25519 2018/2020 keys are converted to base58 / multibase(z-base58); a key is referenced from a relationship iff one of "
+                  "its purposes names it (with multiplicity); key contexts have no duplicates; every service carries qualified id, type, endpoint; the metadata table (deactivated, canonical "
+                  "and equivalent ids as given, created iff published, version id, updated iff version id and updated > 0). The comparator, the key-context map and the purpose switch are "
+                  "tied to the Go AST.",
+    "level_note": "Trusted: Lean kernel; extractor; harness. base58 and the RFC 3339 calendar arithmetic are executable models validated by the stream.",
+}
+
 NOT_CLAIMED = {}
